@@ -2448,9 +2448,9 @@ impl Fs {
     /// List entries in a directory.
     /// Returns paths of files, directories, and symlinks that are direct children of the given path.
     pub(crate) fn dir_entries(&self, path: &Path) -> Vec<PathBuf> {
-        use std::collections::HashSet;
-
-        let mut entries: HashSet<PathBuf> = HashSet::new();
+        // IndexSet, not HashSet: the listing order must be the same from
+        // run to run (std's HashSet iterates in a per-process random order)
+        let mut entries: IndexSet<PathBuf> = IndexSet::new();
 
         // Add persisted files in this directory
         for file_path in self.persisted_files.keys() {
